@@ -79,7 +79,7 @@ func (g *G) sentence(depth int, level int) (text string, endsIri bool) {
 
 // the grammar's own characters (all four whitespace characters included) plus near misses: other control and
 // space characters, punctuation, non-ASCII
-var pathAlphabet = []rune("ab.xe/|()^*@ \n\t\r\f\v\u00a0\u2028-_\\,\"'0Z#é:;[]{}+?!%&=<>~`$")
+var pathAlphabet = []rune("ab.xe/|()^*@ \n\t\r\f\v\u00a0\u2028-_\\,\"'0Z#é:;[]{}+?!%&=<>~`$\ufffd\u3000\u2003\ufeff\u0000\U0001d4d0")
 
 func mutations(s string, g *G, max int) []string {
 	rs := []rune(s)
